@@ -181,6 +181,14 @@ def make_rule(prop: str, rule_id: str, prefixes: list[str]):
                                       "evaluating the message of a rejection cannot fail",
                                       "when the property's own assertion fails (e.g. `grid_n` on an oblong grid) the caller gets that exception instead of the documented one",
                                       node=st_, rule=rule_id)
+            # ... nor does the function start to read such a property on its ordinary path (diagnostics computed eagerly, a tidied-up shortcut)
+            rp = rejecting_properties(ctx.index)
+            ref_eager = set(reference().get("eager_rejecting_reads", {}).get(q, []))
+            for a_name, nodes in eager_attr_reads(f.node).items():
+                if a_name in rp and a_name not in ref_eager:
+                    ctx.violation(f, {"reads_property": a_name, "which_rejects": rp[a_name][:2], "at": X.U(nodes[0])[:60]},
+                                  "on its ordinary path the function reads only properties that cannot fail, or those the pinned tree reads there",
+                                  "inputs the function accepted before (e.g. oblong grids, for `grid_n`) now fail with the property's own assertion", node=nodes[0], rule=rule_id)
             for nid, (syms, _, node) in new.items():
                 ctx.violation(f, {"new_rejection_condition": conds.get(nid, [X.U(node)[:120]])[:4], "tests_something_no_confirmed_condition_tests": sorted(set(syms)),
                                   "confirmed_subjects_of_this_function": sorted(known)[:12]},
@@ -290,6 +298,32 @@ def memoised_mutable(fn_node: ast.AST) -> str | None:
 
 
 NARROW_DTYPES = {"int8", "uint8", "int16", "uint16", "float16", "short", "byte", "ubyte", "ushort", "half"}
+
+
+def eager_attr_reads(fn_node: ast.AST) -> dict[str, list[ast.AST]]:
+    """attribute names read by a function *outside* the message of an assert and outside the expression of a raise (those are evaluated only on
+    the failing path): name -> nodes"""
+    lazy: set[int] = set()
+    for n in N.walk_no_nested_defs(fn_node):
+        if isinstance(n, ast.Assert) and n.msg is not None:
+            lazy |= {id(x) for x in ast.walk(n.msg)}
+        if isinstance(n, ast.Raise) and n.exc is not None:
+            lazy |= {id(x) for x in ast.walk(n.exc)}
+    out: dict[str, list[ast.AST]] = {}
+    for n in N.walk_no_nested_defs(fn_node):
+        if isinstance(n, ast.Attribute) and isinstance(n.ctx, ast.Load) and id(n) not in lazy:
+            out.setdefault(n.attr, []).append(n)
+    return out
+
+
+def rejecting_properties(index) -> dict[str, list[str]]:
+    "property name -> qualnames of the properties of that name whose body asserts / raises (reading them can fail)"
+    out: dict[str, list[str]] = {}
+    for c_ in index.classes.values():
+        for n_, m_ in c_.methods.items():
+            if m_.is_property and any(not k_ for k_, _, _ in rejection_atoms(m_.node)):
+                out.setdefault(n_, []).append(m_.qualname)
+    return out
 
 
 def narrowing_casts(fn_node: ast.AST) -> list[tuple[str, ast.AST]]:
@@ -408,6 +442,23 @@ def make_narrowing_rule(prop: str, rule_id: str, prefixes: list[str]):
                               "functions reachable from the anchored functions narrow element types only where the pinned tree does",
                               "values beyond the narrow type's range (a coordinate >= 128 in int8, a length >= 256 in uint8 ...) wrap around silently: the result "
                               "leaves the grid / names other cells", node=node, rule=rule_id)
+        # module-level constants that the reachable functions use (lookup tables such as NEIGHBORS_MASK): a narrow element type there makes every
+        # `coordinate + table` stay narrow when the coordinate is narrow too
+        used_names = {x.id for q in closure for x in ast.walk(ctx.index.functions[q].node) if isinstance(x, ast.Name)}
+        ref_mod = reference().get("narrowing_module_level", {})
+        for m in ctx.index.modules.values():
+            for name, node in m.assign_nodes.items():
+                if name not in used_names:
+                    continue
+                left = list(ref_mod.get(f"{m.name}.{name}", []))
+                for key, cast in narrowing_casts(ast.Module(body=[node], type_ignores=[])):
+                    if key in left:
+                        left.remove(key)
+                        continue
+                    ctx.violation((m.relpath, f"{m.name}.{name}", getattr(node, "lineno", 0)), {"narrow_cast": X.U(cast)[:100], "kind": key},
+                                  "module-level tables used by the reachable functions keep the element type the pinned tree gives them",
+                                  "arithmetic of a narrow coordinate with the narrow table no longer widens: 127 + 1 wraps to -128 and the neighbour is discarded as out of bounds",
+                                  node=cast, rule=rule_id)
         ctx.holds(("-", f"{rule_id} scope", 0), {"entry_functions": len(entries), "functions_in_closure": n, "narrow_casts_in_pinned_tree": sum(len(v) for v in ref.values())},
                   "no new narrowing cast in any function reachable from the anchored functions")
     return run
